@@ -1,6 +1,7 @@
 /- C15 — helper lemmas for the RFC 8285 one-byte-header walks (`getOne`, `rebuild`). Core Lean only. -/
 import RtcModel.C15Ext
 import RtcModel.Lemmas.C15Bytes
+import RtcModel.Lemmas.C15Consts
 
 namespace RtcModel.C15
 open RtcModel.Generated
@@ -34,6 +35,7 @@ theorem elem_hdr_ne_zero {id : Nat} {data : Bytes} (w : ElemOk id data) :
 theorem getOne_elem_self {id : Nat} {data : Bytes} (w : ElemOk id data) (tail : Bytes) :
     getOne id (u8 (id * 16 + (data.length - 1)) :: (data ++ tail)) = some data := by
   have := w.idPos; have := w.idLt; have := w.lenPos; have := w.lenLe
+  have := c15StopIdGet_eq
   rw [getOne]
   simp only [elem_hdr_ne_zero w, if_false, elem_hdr w]
   have h1 : (id * 16 + (data.length - 1)) / 16 = id := by omega
@@ -45,6 +47,7 @@ theorem getOne_elem_self {id : Nat} {data : Bytes} (w : ElemOk id data) (tail : 
 theorem getOne_elem_other {id id' : Nat} {data : Bytes} (w : ElemOk id data) (hne : id' ≠ id) (tail : Bytes) :
     getOne id' (u8 (id * 16 + (data.length - 1)) :: (data ++ tail)) = getOne id' tail := by
   have := w.idPos; have := w.idLt; have := w.lenPos; have := w.lenLe
+  have := c15StopIdGet_eq
   rw [getOne]
   simp only [elem_hdr_ne_zero w, if_false, elem_hdr w]
   have h1 : (id * 16 + (data.length - 1)) / 16 = id := by omega
@@ -68,7 +71,7 @@ theorem getOne_cons {b : UInt8} (hb : b ≠ 0) (id : Nat) (rest : Bytes) :
       else if b.toNat / 16 = id then
         (if b.toNat % 16 + 1 ≤ rest.length then some (rest.take (b.toNat % 16 + 1)) else none)
       else getOne id (rest.drop (b.toNat % 16 + 1)) := by
-  rw [getOne]; simp [hb]
+  rw [getOne]; simp only [hb, if_false, c15StopIdGet_eq]
 
 theorem rebuild_nil (id : Nat) (e : Bytes) : rebuild id e [] = some ([], false) := by rw [rebuild]
 
@@ -83,7 +86,7 @@ theorem rebuild_cons {b : UInt8} (hb : b ≠ 0) (id : Nat) (e rest : Bytes) :
       else if b.toNat % 16 + 1 ≤ rest.length then
         (rebuild id e (rest.drop (b.toNat % 16 + 1))).map fun r => (b :: (rest.take (b.toNat % 16 + 1) ++ r.1), r.2)
       else none := by
-  rw [rebuild]; simp [hb]
+  rw [rebuild]; simp only [hb, if_false, c15StopIdSet_eq]
 
 theorem take_drop_helper (k : Nat) (rest o : Bytes) (h : k ≤ rest.length) :
     (rest.take k ++ o).take k = rest.take k ∧ (rest.take k ++ o).drop k = o ∧ k ≤ (rest.take k ++ o).length := by
